@@ -17,6 +17,11 @@ TOML *parsing* is not modelled: a configuration is a STRUCTURED value (`Cfg`): a
 (section, key, typed value) entries; a key that is absent has no entry.  The correspondence
 suite generates structured values from a grammar, renders them to TOML text for crem and sends
 the structured form here.
+
+Also transcribed since the third round: `scenario.Runner.generateCloneId`, `scenario.Saver` (encodeSummary,
+ensureOutputPathIsUsable), `solution/set.Summary.FileNameSafeId` (the summary file of a run), `pkg/math.RoundFloat`
+with its callers in the dumb models and in `annealing/observer.AnnealingMessageObserver` (values too large to round),
+toml v0.3.1 `unifyStruct` (keys matched by `strings.EqualFold`, a struct field written as a scalar).
 -/
 namespace Crem.Config
 
@@ -34,18 +39,27 @@ inductive Sec
   | modelParams     -- [Model.Parameters]                          parameters.Map
   | metaData        -- [MetaData]    (a decodable field of Config; overwritten after decoding)
   | other
+  | top             -- bare keys before the first table header: the fields of `Config` itself written as values
   deriving DecidableEq, Repr
 
-/-- a typed TOML value.  `flt m` is the decimal `m / 1000`; `path sym` is a string whose text
-is a file-system path, named by a symbol the harness realises (`pathKind` says what is there) -/
+/-- a typed TOML value.  `flt m` is the decimal `m / 10^6` (any magnitude: `1e306` is `flt (10^312)`;
+fine enough for the smallest documented range, the bank-erosion factor in [1e-5, 5e-4]); `path sym` is
+a string whose text is a file-system path, named by a symbol the harness realises (`pathKind` says
+what is there); `array` is a (homogeneous) TOML array and `datetime` a TOML datetime: values of a
+type no field of the configuration takes -/
 inductive Val
   | int (i : Int)
-  | flt (milli : Int)
+  | flt (micro : Int)
   | str (s : String)
   | bool (b : Bool)
   | path (sym : String)
   | table
+  | array
+  | datetime
   deriving DecidableEq, Repr
+
+/-- the decimal unit: `flt m` denotes `m / unit` -/
+def unit : Nat := 1000000
 
 structure Entry where
   sec : Sec
@@ -56,10 +70,31 @@ structure Entry where
 /-- a structured configuration: the entries present (absent key = no entry) -/
 abbrev Cfg := List Entry
 
-/-- the value written for `key` in table `sec`, if any -/
+/-- `strings.EqualFold` on one letter, for names made of ASCII letters: ASCII case is folded, and so are
+the two non-ASCII characters whose simple case folding is an ASCII letter (U+212A KELVIN SIGN ↦ k,
+U+017F LATIN SMALL LETTER LONG S ↦ s) -/
+def foldChar (c : Char) : Char :=
+  if c = Char.ofNat 0x212A then 'k' else if c = Char.ofNat 0x17F then 's' else c.toLower
+
+/-- a key as the decoder compares it with the name of a Go struct field -/
+def foldKey (k : String) : List Char := k.toList.map foldChar
+
+/-- the tables decoded into a Go STRUCT: toml v0.3.1 `unifyStruct` matches a key with a field by
+`strings.EqualFold` (an exact match is preferred, which makes no difference here: no two fields of
+one struct differ by case only).  The keys of a table decoded into a Go MAP are kept as written. -/
+def structSec : Sec → Bool
+  | .scenario | .reporting | .annealer | .model | .metaData | .top => true
+  | _ => false
+
+/-- does the key `written` in table `s` denote `name`? -/
+def keyIs (s : Sec) (written name : String) : Bool :=
+  if structSec s then foldKey written == foldKey name else written == name
+
+/-- the value written for `key` in table `sec`, if any (the first entry that denotes the key: a table
+that spells one field in two ways is decoded in map order by Go and is outside the generated space) -/
 def get : Cfg → Sec → String → Option Val
   | [], _, _ => none
-  | e :: r, s, k => if e.sec = s ∧ e.key = k then some e.val else get r s k
+  | e :: r, s, k => if e.sec = s ∧ keyIs s e.key k = true then some e.val else get r s k
 
 /-- the entries of one table as a key/value list (a Go map after decoding) -/
 def params : Cfg → Sec → List (String × Val)
@@ -73,27 +108,50 @@ def getP : List (String × Val) → String → Option Val
 
 /-! ## the file system as the configuration sees it -/
 
+/-- what is at a path.  The CONTENT of a data set enters the model only through this classification:
+
+* `dataset`: the meta-file names the Subcatchments, Gullies and Actions tables, every table file parses, has at
+  least the columns the catchment model reads BY POSITION (12 / 4 / 15), a number in every cell it reads as one
+  (Subcatchments columns 0 2 3 4 6 7 8 11, every Gullies column, Actions columns 0 and 2-14), and every planning
+  unit the Gullies and Actions tables name has its Subcatchments row;
+* `badDataset`: a table is not named by the meta-file;
+* `malformedDataset`: the tables are there but one of the other conditions fails (a column dropped, text / an empty
+  cell / a boolean where a number is read, a Subcatchments table without rows or without a referenced row);
+* a meta-file naming a table file that is missing, empty or ragged does not LOAD (`csv.DataSet.Load` returns an
+  error): for the model that is `file`, a readable file that is no data set. -/
 inductive PathKind
   | missing      -- nothing there
-  | file         -- a readable regular file that is not a data set
+  | file         -- a readable regular file that is not a loadable data set
   | dir          -- a directory
-  | dataset      -- a CSV data set with the Subcatchments / Gullies / Actions tables (shipped ValidModel.csv, TestingModel.csv)
+  | dataset      -- a CSV data set the catchment model can be built from (shipped ValidModel.csv, TestingModel.csv and harmless variations)
   | badDataset   -- a readable .csv whose tables are missing (shipped InvalidModel.csv)
+  | malformedDataset -- a CSV data set with the three tables whose content `Initialise` cannot consume
+  | underFile    -- a path BELOW a regular file: `os.Stat` fails with "not a directory", which is not "does not exist"
   deriving DecidableEq, Repr
 
-/-- what the path symbols of the generator denote (the harness creates exactly this) -/
+def hasPrefix (p s : String) : Bool := p.toList.isPrefixOf s.toList
+
+/-- what the path symbols of the generator denote (the harness creates exactly this).  `okd.<spec>`,
+`mal.<spec>`, `unl.<spec>` are mutated COPIES of a shipped data set (`<spec>` names base, table and edit): the
+harness's catalogue of edits puts each one in the class its prefix says -/
 def pathKind (sym : String) : PathKind :=
-  if sym = "valid" ∨ sym = "testing" then .dataset
+  if sym = "valid" ∨ sym = "testing" ∨ hasPrefix "okd." sym = true then .dataset
   else if sym = "badcsv" then .badDataset
-  else if sym = "notcsv" ∨ sym = "file" then .file
+  else if hasPrefix "mal." sym = true then .malformedDataset
+  else if sym = "notcsv" ∨ sym = "file" ∨ hasPrefix "unl." sym = true then .file
   else if sym = "dir" ∨ sym = "exists" then .dir
+  else if sym = "underfile" then .underFile
   else .missing
 
 /-- `os.OpenFile(path, O_RDONLY)` succeeds (directories open too) -/
-def readable (sym : String) : Bool := pathKind sym != .missing
+def readable (sym : String) : Bool := pathKind sym != .missing && pathKind sym != .underFile
+
+/-- `os.Stat` answers and what is there is no directory -/
+def existsNotDir (k : PathKind) : Bool :=
+  k == .file || k == .dataset || k == .badDataset || k == .malformedDataset
 
 /-- the directory the path lies in exists (`os.Stat(filepath.Dir(path))` answers with a directory) -/
-def parentIsDirectory (sym : String) : Bool := !(sym = "noprofdir" || sym = "nested")
+def parentIsDirectory (sym : String) : Bool := !(sym = "noprofdir" || sym = "nested" || sym = "underfile")
 
 /-- a file can be created at the path (`os.Create` of the CPU profile): its directory exists and the
 path itself is no directory -/
@@ -152,6 +210,13 @@ structure Repairs where
   /-- new: `ScenarioConfigInterpreter` rejects a `CpuProfilePath` whose parent is no existing directory
   (a path that itself names a directory is still accepted: crem's own interpreter test passes one) -/
   cpuProfilePathChecked : Bool := false
+  /-- new: `ScenarioConfigInterpreter` rejects an `OutputPath` for which `os.Stat` fails with an error other than
+  "does not exist" (a path below a regular file) -/
+  outputPathStatChecked : Bool := false
+  /-- C12: `Summary.FileNameSafeId` cuts the solution id at the LAST " Solution (" instead of deleting the greedy
+  match of `Solution\(.+\)` (which eats the run part "(r/R)" of the id when the scenario name itself contains, or
+  ends in, "Solution": every run then writes the same summary file) -/
+  summaryNameAnchored : Bool := false
   deriving DecidableEq, Repr
 
 /-! ## loading: TOML value types against Go field types (BurntSushi/toml v0.3.1 `unify`) -/
@@ -162,50 +227,60 @@ inductive Kind
   | flag                         -- Go bool
   | enum (valid : List String)   -- encoding.TextUnmarshaler validating against a list
   | anyMap                       -- a map field written as a key of its parent table
+  | struct                       -- a struct field (a sub-table) written as a key of its parent table
   | entryAny                     -- an entry of a map[string]interface{}
   | entryStr                     -- an entry of a map[string]string
   deriving Repr
 
 def annealerTypes : List String := ["Kirkpatrick", "Suppapitnarm", "AveragedSuppapitnarm"]
 
-/-- the Go field behind (table, key); `none` = no such field: the key stays undecoded -/
-def fieldKind : Sec → String → Option Kind
+/-- the Go field behind (table, folded key); `none` = no such field: the key stays undecoded -/
+def fieldKindF : Sec → List Char → Option Kind
   | .scenario, k =>
-    if k = "Name" ∨ k = "OutputPath" ∨ k = "CpuProfilePath" then some .text
-    else if k = "RunNumber" ∨ k = "MaximumConcurrentRunNumber" then some .uint
-    else if k = "OutputType" then some (.enum ["CSV", "JSON", "EXCEL"])
-    else if k = "OutputLevel" then some (.enum ["Summary", "Detail"])
-    else if k = "UserDetail" then some .anyMap
+    if k = "name".toList ∨ k = "outputpath".toList ∨ k = "cpuprofilepath".toList then some .text
+    else if k = "runnumber".toList ∨ k = "maximumconcurrentrunnumber".toList then some .uint
+    else if k = "outputtype".toList then some (.enum ["CSV", "JSON", "EXCEL"])
+    else if k = "outputlevel".toList then some (.enum ["Summary", "Detail"])
+    else if k = "userdetail".toList then some .anyMap
+    else if k = "reporting".toList then some .struct
     else none
   | .userDetail, _ => some .entryAny
   | .reporting, k =>
-    if k = "ReportEveryNumberOfIterations" then some .uint
-    else if k = "CheckingLoopInvariant" then some .flag
-    else if k = "Type" then some (.enum ["NativeLibrary", "BareBones"])
-    else if k = "Formatter" then some (.enum ["RawMessage", "JSON", "NameValuePair"])
-    else if k = "LogLevelDestinations" then some .anyMap
+    if k = "reporteverynumberofiterations".toList then some .uint
+    else if k = "checkingloopinvariant".toList then some .flag
+    else if k = "type".toList then some (.enum ["NativeLibrary", "BareBones"])
+    else if k = "formatter".toList then some (.enum ["RawMessage", "JSON", "NameValuePair"])
+    else if k = "logleveldestinations".toList then some .anyMap
     else none
   | .logDest, _ => some .entryStr
   | .annealer, k =>
-    if k = "Type" then some (.enum annealerTypes)
-    else if k = "EventNotifier" then some (.enum ["Sequential", "Concurrent"])
-    else if k = "Parameters" then some .anyMap
+    if k = "type".toList then some (.enum annealerTypes)
+    else if k = "eventnotifier".toList then some (.enum ["Sequential", "Concurrent"])
+    else if k = "parameters".toList then some .anyMap
     else none
   | .annealerParams, _ => some .entryAny
   | .model, k =>
-    if k = "Type" then some .text
-    else if k = "Parameters" then some .anyMap
+    if k = "type".toList then some .text
+    else if k = "parameters".toList then some .anyMap
     else none
   | .modelParams, _ => some .entryAny
   | .metaData, k =>
-    if k = "FilePath" ∨ k = "ExecutableName" ∨ k = "ExecutableVersion" then some .text else none
+    if k = "filepath".toList ∨ k = "executablename".toList ∨ k = "executableversion".toList then some .text else none
   | .other, _ => none
+  | .top, k =>
+    if k = "scenario".toList ∨ k = "annealer".toList ∨ k = "model".toList ∨ k = "metadata".toList then some .struct else none
+
+/-- the Go field behind (table, key).  In a struct table the key is compared by `strings.EqualFold`
+(`[scenario] name = …`, `TYPE = …` are decoded); the keys of a map table are free. -/
+def fieldKind (s : Sec) (k : String) : Option Kind := fieldKindF s (foldKey k)
 
 /-- does the decoder accept the value for a field of this kind?
 * `uint` takes every TOML integer (`unifyInt` converts `uint64(num)` without a sign check for 64-bit fields);
 * an `enum` renders integers, decimals and booleans to text first, which is never a valid name;
 * a map field written as a non-table value is silently skipped (`unifyMap` returns nil when the
-  type assertion fails), and every value is fine inside a `map[string]interface{}`. -/
+  type assertion fails), and every value is fine inside a `map[string]interface{}`;
+* a struct field takes a table only (`unifyStruct`: "type mismatch … expected table");
+* arrays and datetimes are taken by no scalar field. -/
 def compat : Kind → Val → Bool
   | .text, .str _ => true
   | .text, .path _ => true
@@ -217,23 +292,40 @@ def compat : Kind → Val → Bool
   | .enum valid, .str s => valid.contains s
   | .enum _, _ => false
   | .anyMap, _ => true
+  | .struct, .table => true
+  | .struct, _ => false
   | .entryAny, _ => true
   | .entryStr, .str _ => true
   | .entryStr, .path _ => true
   | .entryStr, _ => false
 
+/-- the largest finite double, 2^1024 - 2^971 (written out: the kernel does not evaluate such powers) -/
+def maxFloat64 : Nat :=
+  179769313486231570814527423731704356798070567525844996598917476803157260780028538760589558632766878171540458953514382464234321326889464182768467546703537516986049910576551282076245490090389328944075868508455133942304583236903222948165808559332123348274797826204144723168738177180919299881250404026184124858368
+
+/-- 2^1024 - 2^970, half a unit in the last place above `maxFloat64` -/
+def floatOverflow : Nat :=
+  179769313486231580793728971405303415079934132710037826936173778980444968292764750946649017977587207096330286416692887910946555547851940402630657488671505820681908902000708383676273854845817711531764475730270069855571366959622842914819860834936475292719074168444365510704342711559699508093042880177904174497792
+
+/-- a decimal literal is a TOML float only if it rounds to a finite double, i.e. its magnitude is below
+2^1024 - 2^970; beyond, the PARSER fails ("Float … is out of the range of 64-bit IEEE-754 floating-point
+numbers"), wherever the value is written -/
+def floatParses (m : Int) : Bool := decide (m.natAbs < floatOverflow * unit)
+
 def entryDecodes (e : Entry) : Bool :=
+  (match e.val with | .flt m => floatParses m | _ => true) &&
   match fieldKind e.sec e.key with
   | none => true
   | some k => compat k e.val
 
 /-- is the key decoded?  A key without a Go field is not; neither are the keys INSIDE a table written
 as a value of a `map[string]interface{}` (`unifyAnything` stores the nested table without marking
-its keys): both end up in `MetaData.Undecoded()`. -/
+its keys) or as the value of a struct field: all end up in `MetaData.Undecoded()`. -/
 def entryKnown (e : Entry) : Bool :=
   match fieldKind e.sec e.key with
   | none => false
   | some .entryAny => e.val != .table
+  | some .struct => false     -- written as an inline table `{ inner = 1 }`: `inner` is no field of the struct
   | some _ => true
 
 /-- Go's `uint64(int64)` conversion -/
@@ -344,8 +436,8 @@ inductive Validator
 def validate : Validator → Val → Bool
   | .decimal, .flt _ => true
   | .nonNegDecimal, .flt m => 0 ≤ m
-  | .unitDecimal, .flt m => 0 ≤ m ∧ m ≤ 1000
-  | .bankErosion, .flt m => 1 ≤ 100 * m ∧ 2 * m ≤ 1
+  | .unitDecimal, .flt m => 0 ≤ m ∧ m ≤ 1000000
+  | .bankErosion, .flt m => 10 ≤ m ∧ m ≤ 500
   | .integer, .int _ => true
   | .nonNegInt, .int i => 0 ≤ i
   | .posInt, .int i => 1 ≤ i
@@ -374,42 +466,42 @@ def kirkSpecs : Specs :=
    ("DecisionVariable", ⟨.text, some (.str "ObjectiveValue")⟩),
    ("OptimisationDirection", ⟨.direction, some (.str "Minimising")⟩),
    ("StartingTemperature", ⟨.nonNegDecimal, some (.flt 0)⟩),
-   ("CoolingFactor", ⟨.unitDecimal, some (.flt 1000)⟩)]
+   ("CoolingFactor", ⟨.unitDecimal, some (.flt 1000000)⟩)]
 
 /-- annealers.DefineSpecifications + suppapitnarm explorer + (suppapitnarm | averaged) coolant -/
 def suppaSpecs : Specs :=
   [("MaximumIterations", ⟨.nonNegInt, some (.int 0)⟩),
-   ("ReturnToBaseAdjustmentFactor", ⟨.unitDecimal, some (.flt 950)⟩),
+   ("ReturnToBaseAdjustmentFactor", ⟨.unitDecimal, some (.flt 950000)⟩),
    ("InitialReturnToBaseStep", ⟨.nonNegInt, some (.int 20000)⟩),
    ("MinimumReturnToBaseRate", ⟨.nonNegInt, some (.int 10)⟩),
-   ("ReturnToBaseIsolationFraction", ⟨.unitDecimal, some (.flt 900)⟩),
+   ("ReturnToBaseIsolationFraction", ⟨.unitDecimal, some (.flt 900000)⟩),
    ("CheckNonDominance", ⟨.flag, some (.bool false)⟩),
    ("StartingTemperature", ⟨.nonNegDecimal, some (.flt 0)⟩),
-   ("CoolingFactor", ⟨.unitDecimal, some (.flt 1000)⟩)]
+   ("CoolingFactor", ⟨.unitDecimal, some (.flt 1000000)⟩)]
 
 def dumbSpecs : Specs :=
-  [("InitialObjectiveValue", ⟨.decimal, some (.flt 1000000)⟩),
+  [("InitialObjectiveValue", ⟨.decimal, some (.flt 1000000000)⟩),
    ("MinimumObjectiveValue", ⟨.decimal, some (.flt 0)⟩),
-   ("MaximumObjectiveValue", ⟨.decimal, some (.flt 2000000)⟩)]
+   ("MaximumObjectiveValue", ⟨.decimal, some (.flt 2000000000)⟩)]
 
 def modumbSpecs : Specs :=
-  [("InitialObjectiveOneValue", ⟨.decimal, some (.flt 1000000)⟩),
-   ("InitialObjectiveTwoValue", ⟨.decimal, some (.flt 2000000)⟩),
-   ("InitialObjectiveThreeValue", ⟨.decimal, some (.flt 3000000)⟩),
+  [("InitialObjectiveOneValue", ⟨.decimal, some (.flt 1000000000)⟩),
+   ("InitialObjectiveTwoValue", ⟨.decimal, some (.flt 2000000000)⟩),
+   ("InitialObjectiveThreeValue", ⟨.decimal, some (.flt 3000000000)⟩),
    ("NumberOfPlanningUnits", ⟨.nonNegInt, some (.int 100)⟩)]
 
 def catchmentSpecs : Specs :=
   [("DataSourcePath", ⟨.readableFile, some (.str "")⟩),
-   ("BankErosionFudgeFactor", ⟨.bankErosion, some (.flt 0)⟩),   -- default 1.5e-4 (not representable in thousandths; never read by the model)
-   ("WaterDensity", ⟨.decimal, some (.flt 1000)⟩),
-   ("LocalAcceleration", ⟨.decimal, some (.flt 9810)⟩),
-   ("GullyCompensationFactor", ⟨.decimal, some (.flt 500)⟩),
-   ("SedimentDensity", ⟨.decimal, some (.flt 1500)⟩),
-   ("SuspendedSedimentProportion", ⟨.decimal, some (.flt 500)⟩),
+   ("BankErosionFudgeFactor", ⟨.bankErosion, some (.flt 150)⟩),
+   ("WaterDensity", ⟨.decimal, some (.flt 1000000)⟩),
+   ("LocalAcceleration", ⟨.decimal, some (.flt 9810000)⟩),
+   ("GullyCompensationFactor", ⟨.decimal, some (.flt 500000)⟩),
+   ("SedimentDensity", ⟨.decimal, some (.flt 1500000)⟩),
+   ("SuspendedSedimentProportion", ⟨.decimal, some (.flt 500000)⟩),
    ("YearsOfErosion", ⟨.posInt, some (.int 100)⟩),
-   ("RiparianBufferVegetationProportionTarget", ⟨.unitDecimal, some (.flt 750)⟩),
-   ("GullySedimentReductionTarget", ⟨.unitDecimal, some (.flt 800)⟩),
-   ("HillSlopeDeliveryRatio", ⟨.unitDecimal, some (.flt 50)⟩),
+   ("RiparianBufferVegetationProportionTarget", ⟨.unitDecimal, some (.flt 750000)⟩),
+   ("GullySedimentReductionTarget", ⟨.unitDecimal, some (.flt 800000)⟩),
+   ("HillSlopeDeliveryRatio", ⟨.unitDecimal, some (.flt 50000)⟩),
    ("MaximumSedimentProduction", ⟨.nonNegDecimal, none⟩),
    ("MaximumParticulateNitrogenProduction", ⟨.nonNegDecimal, none⟩),
    ("MaximumDissolvedNitrogenProduction", ⟨.nonNegDecimal, none⟩),
@@ -478,12 +570,14 @@ def validDestinations : List String := ["StandardOutput", "StandardError", "Disc
 
 /-- ScenarioConfigInterpreter → ReportingConfigInterpreter → LoggingConfigInterpreter:
 every log level destination must be recognised (level names are free); (repairs) the output path is
-no existing non-directory; the directory of the CPU profile file exists -/
+no existing non-directory (`os.Stat` answers and `!IsDir()`: a text file, a data-set file …), `os.Stat` of it
+fails with "does not exist" at worst; the directory of the CPU profile file exists -/
 def scenarioErr (r : Repairs) (l : Loaded) : Bool :=
   (!l.logDest.all fun kv => match kv.2 with
     | .str s => validDestinations.contains s
     | _ => false) ||
-  (r.outputPathChecked && (match l.outputPath with | .path p => pathKind p == .file | _ => false)) ||
+  (r.outputPathChecked && (match l.outputPath with | .path p => existsNotDir (pathKind p) | _ => false)) ||
+  (r.outputPathStatChecked && (match l.outputPath with | .path p => pathKind p == .underFile | _ => false)) ||
   (r.cpuProfilePathChecked && (match l.cpuProfilePath with | .path p => !parentIsDirectory p | _ => false))
 
 /-! ## what the run reads -/
@@ -522,11 +616,13 @@ def dataSet (l : Loaded) : Option String :=
   | some (.path p) => if pathKind p = .dataset then some p else none
   | _ => none
 
-/-- the data source is a readable file (it passed validation) that is not a loadable data set
-whose first `Initialise` PANICS (a .csv without the expected tables) -/
+/-- the data source is a readable file (it passed validation) that LOADS as a CSV data set but whose first
+`Initialise` PANICS: a table is missing (deliberate panic in `fetchCsvTable` / `tables.ToCsvTable`), or the
+content cannot be consumed (Go run-time errors of the unchecked positional table accesses: index out of
+range, `interface {} is string / bool / nil, not float64`) -/
 def dataSourceBroken (l : Loaded) : Bool :=
   match effective catchmentSpecs l.modelParams "DataSourcePath" with
-  | some (.path p) => pathKind p = .badDataset
+  | some (.path p) => pathKind p == .badDataset || pathKind p == .malformedDataset
   | _ => false
 
 /-- every configured limit is certain to bind on the loaded data set -/
@@ -550,6 +646,141 @@ def offered (l : Loaded) : Bool :=
   else if l.modelType = .str "MultiObjectiveDumbModel" then lookupSucceeds l.modelType (objective l)
   else if l.modelType = .str "DumbModel" then objective l == .str "ObjectiveValue"
   else true
+
+/-! ### values too large to round (`pkg/math.RoundFloat`, the D15 family of C18 seen from the configuration)
+
+`RoundFloat(value, precision)` PANICS when `|value| > MaxFloat64 / 10^precision`.  The dumb model's variable rounds
+to 3 decimals at the first proposed change; the multi-objective dumb model rounds each initial value to 2 decimals
+inside `Initialise` (`SetPlanningUnitValue`) - which `Saver.SetDecompressionModel` already calls while the
+configuration is INTERPRETED - and its values are rounded to 3 decimals when a run's result is encoded (not by the
+JSON summary encoder).  And unless the Annealing log level is discarded,
+`AnnealingMessageObserver` writes every attribute of every event it lets through (the first one, StartedAnnealing,
+always) with `strings.Converter` at SIX decimals: the objective value of a Kirkpatrick run, every decision variable
+of the multi-objective dumb model (it notifies its observers; the dumb model sends no events) - and the temperature,
+i.e. the annealer's `StartingTemperature`.  `IsDecimal` / `IsNonNegativeDecimal` accept every (non-negative) float,
+so the value stored is the user's.  (Decimals within one unit in the last place of a threshold depend on binary
+rounding and are outside the generated space.) -/
+
+/-- `|m / unit| > MaxFloat64 / 10^digits` -/
+def tooLargeFor (digits : Nat) (m : Int) : Bool := decide (maxFloat64 * unit < m.natAbs * 10 ^ digits)
+
+/-- the decimal the user wrote for a key of a parameter map (0 when there is none: defaults are small) -/
+def userDecimal (ps : List (String × Val)) (k : String) : Int :=
+  match getP ps k with
+  | some (.flt m) => m
+  | _ => 0
+
+def modumbInitialKeys : List String :=
+  ["InitialObjectiveOneValue", "InitialObjectiveTwoValue", "InitialObjectiveThreeValue"]
+
+/-- `modumb.Model.Initialise` panics -/
+def initialiseOverflows (l : Loaded) : Bool :=
+  l.modelType = .str "MultiObjectiveDumbModel" && modumbInitialKeys.any fun k => tooLargeFor 2 (userDecimal l.modelParams k)
+
+/-- the decimals a value of the model is rounded to in a run: 3 by its variable, 6 when it is also logged -/
+def roundDigits (discarded : Bool) : Nat := if discarded then 3 else 6
+
+/-- the multi-objective dumb model's variables are not rounded to 3 decimals by the model but by the ENCODERS: the CSV
+summary and every Detail-level solution file; a JSON summary alone leaves them as they are (2 decimals: `Initialise`) -/
+def modumbDigits (discarded : Bool) (outputType outputLevel : String) : Nat :=
+  if !discarded then 6 else if outputType = "JSON" ∧ outputLevel ≠ "Detail" then 2 else 3
+
+/-- every run fails in `RoundFloat` -/
+def runOverflows (l : Loaded) : Bool :=
+  (l.modelType = .str "DumbModel" &&
+    tooLargeFor (roundDigits (annealingDiscarded l || !isKirk l)) (userDecimal l.modelParams "InitialObjectiveValue")) ||
+  (l.modelType = .str "MultiObjectiveDumbModel" &&
+    modumbInitialKeys.any fun k =>
+      tooLargeFor (modumbDigits (annealingDiscarded l) l.outputType l.outputLevel) (userDecimal l.modelParams k)) ||
+  (!annealingDiscarded l && tooLargeFor 6 (userDecimal l.annealerParams "StartingTemperature"))
+
+/-! ### the summary file of a run (`scenario.Runner.generateCloneId`, `scenario.Saver`, `solution/set.Summary.FileNameSafeId`)
+
+Run `r` of `R` carries the id `<Name>` (R = 1) or `<Name> (r/R)`; its solutions are `<id> Solution (As-Is)`,
+`<id> Solution (k/n)`; the summary file is `<OutputPath>/<FileNameSafeId of one of them>-Summary.<csv|json>`.
+`FileNameSafeId` removes every blank, deletes every match of the regular expression `Solution\(.+\)` (GREEDY;
+`.` matches anything but a line feed) and replaces `/` by `_of_`.  An encoding error (`os.OpenFile` fails) is
+only LOGGED (`Saver.encodeSummary`): the run "completes" without its result. -/
+
+def squeeze (s : List Char) : List Char := s.filter (· != ' ')
+
+/-- the lines of a text (split at line feeds) -/
+def splitLines : List Char → List (List Char)
+  | [] => [[]]
+  | c :: r =>
+    match splitLines r with
+    | [] => [[c]]                       -- unreachable: `splitLines` never answers []
+    | l :: ls => if c = '\n' then [] :: l :: ls else (c :: l) :: ls
+
+def joinLines : List (List Char) → List Char
+  | [] => []
+  | [l] => l
+  | l :: ls => l ++ '\n' :: joinLines ls
+
+/-- index of the first occurrence of `pat` -/
+def firstIndexOf (pat : List Char) : List Char → Option Nat
+  | [] => if pat.isEmpty then some 0 else none
+  | c :: r => if pat.isPrefixOf (c :: r) then some 0 else (firstIndexOf pat r).map (· + 1)
+
+/-- index of the last occurrence of the character -/
+def lastIndexOfChar (ch : Char) : List Char → Option Nat
+  | [] => none
+  | c :: r =>
+    match lastIndexOfChar ch r with
+    | some i => some (i + 1)
+    | none => if c = ch then some 0 else none
+
+/-- `ReplaceAllString` of `Solution\(.+\)` by "" on ONE line: the leftmost match starts at the first
+"Solution(" and - greedy - ends at the LAST ")" of the line, provided at least one character lies between;
+nothing can match after it -/
+def stripLine (l : List Char) : List Char :=
+  match firstIndexOf "Solution(".toList l, lastIndexOfChar ')' l with
+  | some i, some j => if i + 10 ≤ j then l.take i ++ l.drop (j + 1) else l
+  | _, _ => l
+
+def slashes (s : List Char) : List Char := s.flatMap fun c => if c = '/' then "_of_".toList else [c]
+
+/-- `Runner.generateCloneId` -/
+def runId (name : String) (run runs : Nat) : List Char :=
+  if 1 < runs then name.toList ++ " (".toList ++ (Nat.repr run).toList ++ ['/'] ++ (Nat.repr runs).toList ++ [')']
+  else name.toList
+
+/-- the file-name-safe id of the summary of run `run` of `runs` -/
+def summarySafeId (r : Repairs) (name : String) (run runs : Nat) : List Char :=
+  if r.summaryNameAnchored then slashes (squeeze (runId name run runs))
+  else slashes (joinLines ((splitLines (squeeze (runId name run runs ++ " Solution (As-Is)".toList))).map stripLine))
+
+def summaryExtension (outputType : String) : List Char :=
+  if outputType = "JSON" then ".json".toList else ".csv".toList
+
+def summaryFileName (r : Repairs) (l : Loaded) (name : String) (run : Nat) : List Char :=
+  summarySafeId r name run l.runNumber ++ "-Summary".toList ++ summaryExtension l.outputType
+
+def utf8Length (s : List Char) : Nat := s.foldl (fun n c => n + c.utf8Size) 0
+
+/-- `os.OpenFile` can create a file of that name in an existing directory: no NUL, at most 255 bytes
+(the name holds no `/`: `slashes`) -/
+def fileNameUsable (fn : List Char) : Bool := !fn.contains (Char.ofNat 0) && decide (utf8Length fn ≤ 255)
+
+/-- the summary files of runs 1 and 2 differ: then those of any two runs do (the run part of the id survives), and
+if they do not, EVERY run writes the same file -/
+def runFilesDistinct (r : Repairs) (l : Loaded) (name : String) : Bool :=
+  decide (l.runNumber ≤ 1) || summaryFileName r l name 1 != summaryFileName r l name 2
+
+/-- every run writes its own summary file (the longest name is that of the last run) -/
+def resultFilesOk (r : Repairs) (l : Loaded) : Bool :=
+  match l.name with
+  | .str n => fileNameUsable (summaryFileName r l n l.runNumber) && runFilesDistinct r l n
+  | _ => true
+
+/-- for the driver: how many summary files a scenario whose runs all complete leaves behind -/
+def expectedSummaryFiles (r : Repairs) (l : Loaded) : Nat :=
+  match l.name with
+  | .str n =>
+    if runFilesDistinct r l n then
+      ((List.range l.runNumber).filter fun i => fileNameUsable (summaryFileName r l n (i + 1))).length
+    else if fileNameUsable (summaryFileName r l n 1) then 1 else 0
+  | _ => l.runNumber
 
 def objectiveErr (r : Repairs) (l : Loaded) : Bool :=
   r.objectiveChecked && !modelErr l && !annealerErr l && isKirk l && !offered l
@@ -586,7 +817,12 @@ crem fcd5efe and is no site any more.)
 * `dataSource` (R, and inside Interpret) catchment.Model.Initialise records a load error and returns with nothing built; the run then
                  dereferences the missing tables / variables; a .csv without tables panics in fetchCsvTable
 * `realModel` (R) archive.ModelCompressor.Compress(NullModel): NameMappedVariables() is nil
-* `outputPath` (R) scenario.Saver.ensureExistingOutputPathIsUsable: panics when the path is not a directory
+* `outputPath` (R) scenario.Saver.ensureOutputPathIsUsable: panics when the path exists and is not a directory, and when
+                 `os.Stat` fails with anything but "does not exist" (a path below a regular file)
+* `roundable` (R) pkg/math.RoundFloat: panics for a value beyond MaxFloat64 / 10^precision (initial values of the dumb
+                 and the multi-objective dumb model; the catchment model's physical parameters belong to C18)
+* `resultNameable` scenario.Saver.encodeSummary only LOGS an encoding error, and `Summary.FileNameSafeId` may map the
+                 ids of different runs to one file name: the run completes, its summary file is not (or no longer) there
 * `runNumber`    scenario.Runner.runScenario: `runWaitGroup.Add(int(runNumber))` panics for values ≥ 2^63
                  (a negative TOML integer wraps).  The repair bounds the field by 2^31 - 1 (`maxRunNumber`), the
                  capacity of the WaitGroup's 32-bit counter, which excludes every wrapped negative
@@ -601,11 +837,13 @@ structure RunSafe (r : Repairs) (env : Env) (l : Loaded) : Prop where
   loopInvariant : r.loopInvariantGuarded = true ∨ (l.loopInvariant = true → isKirk l = true)
   dataSource : isCatchment l = true → (dataSet l).isSome = true
   realModel : l.modelType ≠ .str "NullModel"
-  outputPath : ∀ p, l.outputPath = .path p → pathKind p ≠ .file
+  outputPath : ∀ p, l.outputPath = .path p → pathKind p = .dir ∨ pathKind p = .missing
   runNumber : l.runNumber < 9223372036854775808
   concurrency : r.concurrencyCapped = true ∨ l.maxConcurrent < 9223372036854775808
   cpuProfile : ∀ p, l.cpuProfilePath = .path p → creatable p = true
   platform : l.outputType ≠ "EXCEL"
+  roundable : runOverflows l = false
+  resultNameable : resultFilesOk r l = true
 
 /-- the same as a Boolean, for the driver -/
 def runSafeB (r : Repairs) (env : Env) (l : Loaded) : Bool :=
@@ -615,16 +853,18 @@ def runSafeB (r : Repairs) (env : Env) (l : Loaded) : Bool :=
   (r.loopInvariantGuarded || !l.loopInvariant || isKirk l) &&
   (!isCatchment l || (dataSet l).isSome) &&
   (l.modelType != .str "NullModel") &&
-  (match l.outputPath with | .path p => pathKind p != .file | _ => true) &&
+  (match l.outputPath with | .path p => pathKind p == .dir || pathKind p == .missing | _ => true) &&
   decide (l.runNumber < 9223372036854775808) &&
   (r.concurrencyCapped || decide (l.maxConcurrent < 9223372036854775808)) &&
   (match l.cpuProfilePath with | .path p => creatable p | _ => true) &&
-  (l.outputType != "EXCEL")
+  (l.outputType != "EXCEL") &&
+  !runOverflows l &&
+  resultFilesOk r l
 
 /-- the model panics while the interpreter wires the scenario (Saver.SetDecompressionModel
 initialises a clone of the model): only when model and annealer sections were error-free -/
 def interpretPanics (l : Loaded) : Bool :=
-  !modelErr l && !annealerErr l && isCatchment l && dataSourceBroken l
+  !modelErr l && !annealerErr l && ((isCatchment l && dataSourceBroken l) || initialiseOverflows l)
 
 /-- what loader + interpreter answer: a configuration is accepted, or ONE error value comes back
 (a non-empty list of load error classes / of sections with errors) — or, today, the interpreter panics -/
@@ -688,12 +928,22 @@ def LoopInvariantWithMultiObjective (c : Cfg) : Bool :=
 def CatchmentWithoutDataSource (c : Cfg) : Bool :=
   modelIs c "CatchmentModel" && get c .modelParams "DataSourcePath" = none
 
-/-- D23 (extended): `DataSourcePath` names something readable that is not a loadable data set
-(another file type, a directory, a .csv without the tables) -/
+/-- D23 (extended): `DataSourcePath` names something readable that is not a data set the model can be built from
+(another file type, a directory, a meta-file whose table files do not load, a .csv without the tables, a data set
+with unusable content) -/
 def CatchmentDataSourceNotLoadable (c : Cfg) : Bool :=
   modelIs c "CatchmentModel" &&
   (match get c .modelParams "DataSourcePath" with
    | some (.path p) => pathKind p != .dataset
+   | _ => false)
+
+/-- new (D23 family): `DataSourcePath` names a CSV data set that loads, has the three tables, but whose CONTENT the
+model cannot consume (`PathKind.malformedDataset`): `Initialise` dies of a Go run-time error in an unchecked table
+access - already inside `ConfigInterpreter.Interpret`.  (Such a data source is "not loadable" as well.) -/
+def CatchmentDataSetMalformed (c : Cfg) : Bool :=
+  modelIs c "CatchmentModel" &&
+  (match get c .modelParams "DataSourcePath" with
+   | some (.path p) => pathKind p == .malformedDataset
    | _ => false)
 
 /-- D24 -/
@@ -702,8 +952,41 @@ def NullModelUnderRealAnnealer (c : Cfg) : Bool := modelIs c "NullModel"
 /-- new: `OutputPath` exists and is not a directory -/
 def OutputPathNotADirectory (c : Cfg) : Bool :=
   match get c .scenario "OutputPath" with
-  | some (.path p) => pathKind p = .file
+  | some (.path p) => existsNotDir (pathKind p)
   | _ => false
+
+/-- new: `os.Stat(OutputPath)` fails with an error other than "does not exist" (the path lies below a regular file):
+the interpreter's check looks at `statError == nil` only, the saver panics ("cannot get file info of output path") -/
+def OutputPathNotUsable (c : Cfg) : Bool :=
+  match get c .scenario "OutputPath" with
+  | some (.path p) => pathKind p == .underFile
+  | _ => false
+
+/-- the decimal written for a parameter -/
+def cfgDecimal (c : Cfg) (s : Sec) (k : String) : Int :=
+  match get c s k with
+  | some (.flt m) => m
+  | _ => 0
+
+/-- the Annealing log level is discarded -/
+def cfgDiscarded (c : Cfg) : Bool := get c .logDest "Annealing" = some (.str "Discarded")
+
+/-- C18's D15 family seen from the configuration: an initial value of the dumb / multi-objective dumb model beyond
+MaxFloat64 / 1000 - beyond MaxFloat64 / 10^6 already while the Annealing level is logged (the dumb model's: in a
+Kirkpatrick run), and then the same for the annealer's `StartingTemperature` -/
+def ValueTooLargeToRound (c : Cfg) : Bool :=
+  (modelIs c "DumbModel" &&
+    tooLargeFor (roundDigits (cfgDiscarded c || !annealerIs c "Kirkpatrick")) (cfgDecimal c .modelParams "InitialObjectiveValue")) ||
+  (modelIs c "MultiObjectiveDumbModel" &&
+    modumbInitialKeys.any fun k =>
+      tooLargeFor (modumbDigits (cfgDiscarded c) (enumField c .scenario "OutputType") (enumField c .scenario "OutputLevel"))
+        (cfgDecimal c .modelParams k)) ||
+  (!cfgDiscarded c && tooLargeFor 6 (cfgDecimal c .annealerParams "StartingTemperature"))
+
+/-- new: some run's summary file cannot be created (name component over 255 bytes, a NUL) or is the file of every
+other run too (the scenario name contains, or ends in, "Solution" followed by "(": the greedy expression of
+`FileNameSafeId` eats the run number) -/
+def ResultFileNotWritten (r : Repairs) (c : Cfg) : Bool := !resultFilesOk r (mkLoaded c)
 
 /-- new: a negative `RunNumber` (the uint64 field wraps to ≥ 2^63) -/
 def RunNumberOutOfRange (c : Cfg) : Bool :=
@@ -743,12 +1026,16 @@ def findingNames (r : Repairs) (env : Env) (c : Cfg) : List String :=
   (if !r.loopInvariantGuarded && LoopInvariantWithMultiObjective c then ["LoopInvariantWithMultiObjective"] else []) ++
   (if CatchmentWithoutDataSource c then ["CatchmentWithoutDataSource"] else []) ++
   (if CatchmentDataSourceNotLoadable c then ["CatchmentDataSourceNotLoadable"] else []) ++
+  (if CatchmentDataSetMalformed c then ["CatchmentDataSetMalformed"] else []) ++
   (if NullModelUnderRealAnnealer c then ["NullModelUnderRealAnnealer"] else []) ++
   (if !r.outputPathChecked && OutputPathNotADirectory c then ["OutputPathNotADirectory"] else []) ++
+  (if !r.outputPathStatChecked && OutputPathNotUsable c then ["OutputPathNotUsable"] else []) ++
   (if !r.runNumberBounded && RunNumberOutOfRange c then ["RunNumberOutOfRange"] else []) ++
   (if !r.concurrencyCapped && ConcurrencyOutOfRange c then ["ConcurrencyOutOfRange"] else []) ++
   (if !r.cpuProfilePathChecked && CpuProfilePathNotCreatable c then ["CpuProfilePathNotCreatable"] else []) ++
   (if CpuProfilePathIsDirectory c then ["CpuProfilePathIsDirectory"] else []) ++
+  (if ValueTooLargeToRound c then ["ValueTooLargeToRound"] else []) ++
+  (if ResultFileNotWritten r c then ["ResultFileNotWritten"] else []) ++
   (if ExcelOutput c then ["ExcelOutput"] else [])
 
 /-- the findings whose repair is DECLARED and whose predicate holds of the configuration.  With the repair
@@ -760,9 +1047,12 @@ def repairedNames (r : Repairs) (c : Cfg) : List String :=
   (if r.objectiveChecked && ObjectiveNotOffered c then ["ObjectiveNotOffered"] else []) ++
   (if r.loopInvariantGuarded && LoopInvariantWithMultiObjective c then ["LoopInvariantWithMultiObjective"] else []) ++
   (if r.outputPathChecked && OutputPathNotADirectory c then ["OutputPathNotADirectory"] else []) ++
+  (if r.outputPathStatChecked && OutputPathNotUsable c then ["OutputPathNotUsable"] else []) ++
   (if r.runNumberBounded && RunNumberOutOfRange c then ["RunNumberOutOfRange"] else []) ++
   (if r.concurrencyCapped && ConcurrencyOutOfRange c then ["ConcurrencyOutOfRange"] else []) ++
-  (if r.cpuProfilePathChecked && CpuProfilePathNotCreatable c then ["CpuProfilePathNotCreatable"] else [])
+  (if r.cpuProfilePathChecked && CpuProfilePathNotCreatable c then ["CpuProfilePathNotCreatable"] else []) ++
+  (if r.summaryNameAnchored && !ResultFileNotWritten r c && ResultFileNotWritten { r with summaryNameAnchored := false } c
+   then ["ResultFileNotWritten"] else [])
 
 /-- a finding whose failure site every run reaches (a limit between the two zone borders depends
 on the random initialisation: it MAY end the run) -/
